@@ -12,7 +12,10 @@ Tie to the code:
     is exercised against facts computed by the C compiler inside the same module (helper
     functions), then `...` variants and single-point mutations of the cdef against the SAME C
     source; each struct / constant of each module is also sent to the Lean model
-    (StructCheck.realise / CheckInt.libConst) and the outcomes compared.
+    (StructCheck.realise / CheckInt.libConst) and the outcomes compared;
+  * a deterministic prefix stream in every run: `[...]`-length globals / typedefs / partial structs declared before
+    fully declared structs and unions (same or earlier cdef call) -- the generated table must still carry
+    _CFFI_F_CHECK_FIELDS for them and a mismatching one must raise.
 """
 import concurrent.futures
 import importlib
